@@ -98,10 +98,10 @@ def iter (v : V) : Option (List V) :=
   | _ => iterate v
 
 mutual
-/-- `hash(v)` succeeds -/
+/-- `hash(v)` succeeds (a `dict_values` view hashes by identity whatever it contains) -/
 def hashable : V → Bool
   | .atom _ _ => true
-  | .seq c l => (c == .tuple || c == .frozenset || c == .range) && hashableL l
+  | .seq c l => c == .dict_values || ((c == .tuple || c == .frozenset || c == .range) && hashableL l)
   | .map _ _ _ => false
 def hashableL : List V → Bool
   | [] => true
@@ -124,7 +124,7 @@ def pyEq : V → V → Bool
       match w with
       | .seq c' l' =>
         if isSetCls c && isSetCls c' then subL l l' && l'.all (fun y => memL2 l y)
-        else c == c' && pyEqL l l'
+        else c == c' && c != .dict_values && pyEqL l l'     -- dict_values compare by identity: distinct objects differ
       | _ => false
   | .map _ _ _, _ => false
 def pyEqL : List V → List V → Bool
